@@ -19,7 +19,8 @@ for el, (base, sub) in ELEMENTS.items():
 DEVIATIONS = [
     "subtype-element", "xsi-type-on-record", "str-typed", "nested-xmlns", "other-xsd-prefix", "multi-member",
     "comments", "prov-other", "default-ns", "bool-01", "time-Z", "int-as-long", "lang-with-type", "unsorted-extras",
-    "shadowed-root-prefix",
+    "shadowed-root-prefix", "comment-in-text", "cdata-text", "charref-text",
+    "outer-comment", "pi-in-record", "pi-in-text",
 ]
 
 
@@ -94,6 +95,21 @@ def value_xml(a, v, namer, sites, xsdp):
             return extra, lex
         return " xsi:type=%s" % quoteattr(namer.qname(dt)), lex
     raise ValueError(v)
+
+
+def spell_text(text, sites):
+    """the character content of a value element, in one of the spellings XML allows for the same content"""
+    if sites.on("comment-in-text"):
+        h = len(text) // 2
+        return escape(text[:h]) + "<!-- c -->" + escape(text[h:])
+    if sites.on("pi-in-text"):
+        h = len(text) // 2
+        return escape(text[:h]) + "<?note in text?>" + escape(text[h:])
+    if sites.on("cdata-text"):
+        return "<![CDATA[" + text.replace("]]>", "]]]]><![CDATA[>") + "]]>"
+    if sites.on("charref-text"):
+        return "".join("&#x%X;" % ord(c) for c in text)
+    return escape(text)
 
 
 def _local_decls(namer, before):
@@ -172,9 +188,11 @@ def records_xml(records, namer, sites, xsdp, indent):
             if text is None:
                 children.append("%s  <%s%s/>" % (indent, tag, extra))
             else:
-                children.append("%s  <%s%s>%s</%s>" % (indent, tag, extra, escape(text), tag))
+                children.append("%s  <%s%s>%s</%s>" % (indent, tag, extra, spell_text(text, sites), tag))
         if sites.on("comments"):
             children.insert(0, "%s  <!-- a comment -->" % indent)
+        if sites.on("pi-in-record"):
+            children.insert(0, "%s  <?note in record?>" % indent)
         if shadow:
             if rec_attr:
                 pass  # the xsi:type value was spelt through namer.qname as well
@@ -238,6 +256,10 @@ def write(doc, prefixes, dialect=(), default=None):
     lines.extend(body)
     lines.extend(bparts)
     lines.append("</prov:document>")
+    if sites.on("outer-comment"):
+        lines.insert(1, "<!-- before the document element -->")
+        lines.insert(2, '<?xml-stylesheet type="text/xsl" href="prov.xsl"?>')
+        lines.append("<!-- after the document element -->")
     return "\n".join(lines)
 
 
@@ -265,3 +287,4 @@ def _count(doc, prefixes, sites, default):
         records_xml(recs, XNamer(namer.prefixes, namer.default), sites, "xsd", "")
     sites.on("prov-other")
     sites.on("shadowed-root-prefix")
+    sites.on("outer-comment")
